@@ -18,8 +18,6 @@ import (
 	"context"
 	"sync"
 	"sync/atomic"
-
-	"github.com/conduitio/conduit/pkg/foundation/cerrors"
 )
 
 type FanoutNode struct {
@@ -96,7 +94,16 @@ func (n *FanoutNode) Run(ctx context.Context) error {
 								// routine that actually acked the message
 								return msg.Ack()
 							case <-msg.Nacked():
-								return cerrors.New("message was nacked by another node")
+								// Another destination nacked the message. The
+								// nack decides what happens to the message
+								// (nack wins): if it was handled (the record
+								// was stored in the DLQ and acked to the
+								// source) this ack is a no-op and the pipeline
+								// keeps running, if it failed this node fails
+								// with the same error. Nack is idempotent and
+								// returns the value of the call that actually
+								// nacked the message.
+								return msg.Nack(nil, n.ID())
 							}
 						}),
 					)
